@@ -56,6 +56,25 @@ Lemma fixed_topic_nul :
   is_valid_topic_filter_internal [97; 0; 98] (Some (true, true)) None = Ok false.
 Proof. split; vm_compute; reflexivity. Qed.
 
+(* reason string "<NUL>R<U+FFFD>" in a DISCONNECT (the C02 client-path witness of D28): was accepted by both
+   validations before /repo cbc2d52; now rejected at submission; so are a NUL in a user property name / value
+   and in the content type.  Binary fields may contain a zero byte. *)
+Definition w_reason_nul : packet :=
+  Disconnect {| d_rc := 152; d_sei := None; d_reason := Some [0; 82; 239; 191; 189]; d_up := None; d_server_ref := None |}.
+Definition pub_with (ct : option bytes) (corr : option bytes) (up : option (list user_property)) : packet :=
+  Publish {| pub_pid := 0; pub_topic := [97]; pub_qos := 0; pub_dup := false; pub_retain := false; pub_payload := Some [0];
+             pub_pfi := None; pub_mei := None; pub_alias := None; pub_response_topic := None; pub_correlation := corr;
+             pub_subids := None; pub_content_type := ct; pub_up := up |}.
+Lemma fixed_string_nul :
+  validate_outbound w_reason_nul = Err EPacketValidationFailure /\
+  In RStringNul (violations st_all co_default no_resolution w_reason_nul) /\
+  validate_outbound (pub_with (Some [116; 0]) None None) = Err EPacketValidationFailure /\
+  validate_outbound (pub_with None None (Some [ {| up_name := [110; 0]; up_value := [118] |} ])) = Err EPacketValidationFailure /\
+  validate_outbound (pub_with None None (Some [ {| up_name := [110]; up_value := [0; 118] |} ])) = Err EPacketValidationFailure /\
+  validate_outbound (pub_with None (Some [0; 1]) None) = Ok tt /\
+  conforms st_all co_default no_resolution (pub_with None (Some [0; 1]) None) = true.
+Proof. repeat split; vm_compute; (reflexivity || tauto). Qed.
+
 (* will topic "#" *)
 Definition w_will_topic : packet := connect_will [35].
 Lemma refuted_will_topic : accepted_violating st_all w_will_topic 1 RWillTopic.
